@@ -8,6 +8,7 @@ import JxlModel.Driver.C14
 import JxlModel.Driver.C18
 import JxlModel.Driver.C16
 import JxlModel.Driver.C06
+import JxlModel.Driver.C04
 
 def main (args : List String) : IO UInt32 := do
   match args with
@@ -24,4 +25,6 @@ def main (args : List String) : IO UInt32 := do
   | ["c16"] => Jxl.Driver.C16.main false; return 0
   | ["c16", "alg"] => Jxl.Driver.C16.main true; return 0
   | ["c06"] => Jxl.Driver.C06.main; return 0
+  | ["c04"] => Jxl.Driver.C04.main; return 0
+  | ["c04enc"] => Jxl.Driver.C04.mainEnc; return 0
   | _ => IO.eprintln "usage: jxlmodel <component>"; return 2
